@@ -260,3 +260,59 @@ def build(now, resp=None, assertions=None, sign_resp=None, sign_ass=None, encryp
 
 def b64(xml):
     return base64.b64encode(xml.encode('utf-8')).decode('ascii')
+
+
+# ---------------------------------------------------------------- requests
+
+REQ_BODIES = {
+    'AuthnRequest': '<samlp:NameIDPolicy Format="%s" AllowCreate="true"/>' % NF_TRANSIENT,
+    'LogoutRequest': '<saml:NameID Format="%s">alice</saml:NameID><samlp:SessionIndex>s1</samlp:SessionIndex>' % NF_TRANSIENT,
+    'AttributeQuery': '<saml:Subject><saml:NameID Format="%s">alice</saml:NameID></saml:Subject>' % NF_TRANSIENT,
+    'AuthnQuery': '<saml:Subject><saml:NameID Format="%s">alice</saml:NameID></saml:Subject>' % NF_TRANSIENT,
+    'AuthzDecisionQuery': ('<saml:Subject><saml:NameID Format="%s">alice</saml:NameID></saml:Subject>'
+                           '<saml:Action Namespace="urn:oasis:names:tc:SAML:1.0:action:rwedc">Read</saml:Action>' % NF_TRANSIENT),
+    'NameIDMappingRequest': ('<saml:NameID Format="%s">alice</saml:NameID><samlp:NameIDPolicy Format="%s"/>'
+                             % (NF_TRANSIENT, 'urn:oasis:names:tc:SAML:2.0:nameid-format:persistent')),
+    'ManageNameIDRequest': '<saml:NameID Format="%s">alice</saml:NameID><samlp:NewID>new-id</samlp:NewID>' % NF_TRANSIENT,
+    'AssertionIDRequest': '<saml:AssertionIDRef>A1</saml:AssertionIDRef>',
+}
+REQ_EXTRA_ATTRS = {'AuthzDecisionQuery': ' Resource="https://resource.example/x"'}
+
+
+def request(now, kind='AuthnRequest', rid='Q1', issuer=SP_X, dest=None, version='2.0', issue_offset=0, sign=None,
+            alg='sha256', keyinfo=None, acs_url=None, acs_index=None, protocol_binding=None, body=None, style='Z',
+            extra_attrs='', extensions='', root=None):
+    at = ' ID="%s" Version="%s" IssueInstant="%s"' % (esca(rid), esca(version), ts(now + issue_offset, style))
+    if dest is not None:
+        at += ' Destination="%s"' % esca(dest)
+    if acs_url is not None:
+        at += ' AssertionConsumerServiceURL="%s"' % esca(acs_url)
+    if acs_index is not None:
+        at += ' AssertionConsumerServiceIndex="%s"' % esca(str(acs_index))
+    if protocol_binding is not None:
+        at += ' ProtocolBinding="%s"' % esca(protocol_binding)
+    at += REQ_EXTRA_ATTRS.get(kind, '') + extra_attrs
+    iss = '<saml:Issuer>%s</saml:Issuer>' % esc(issuer) if issuer is not None else ''
+    sg = sig_template(rid, alg, keyinfo) if sign else ''
+    ext = '<samlp:Extensions>%s</samlp:Extensions>' % extensions if extensions else ''
+    b = REQ_BODIES[kind] if body is None else body
+    tag = root or kind
+    x = ('<samlp:%s xmlns:samlp="%s" xmlns:saml="%s"%s>%s%s%s%s</samlp:%s>' % (tag, SAMLP, SAML, at, iss, sg, ext, b, tag))
+    if sign:
+        x = xmlsec.sign_xml(x, rid, world.priv(sign if isinstance(sign, str) else 'spX'))
+    return x
+
+
+def enc_redirect(xml):
+    import zlib
+    c = zlib.compressobj(9, zlib.DEFLATED, -15)
+    return base64.b64encode(c.compress(xml.encode('utf-8')) + c.flush()).decode('ascii')
+
+
+def enc_post(xml):
+    return base64.b64encode(xml.encode('utf-8')).decode('ascii')
+
+
+def enc_soap(xml):
+    return ('<SOAP-ENV:Envelope xmlns:SOAP-ENV="http://schemas.xmlsoap.org/soap/envelope/"><SOAP-ENV:Body>%s'
+            '</SOAP-ENV:Body></SOAP-ENV:Envelope>' % xml)
